@@ -18,7 +18,7 @@ META = dict(
                 'as the code is: for all paths without a dollar key, plus a refutation witness); traversal visits every node exactly once and the reported path looked up from the root returns the node; '
                 'pg.query(enter_selected=True) is sound and complete; canonicalize(flatten(v, False)) = v for every nested value with distinct admissible keys and no dict whose keys are exactly 0..n-1 (any depth, lists and dicts mixed). Tie: every modelled operation is run against value_location.py / hierarchical.py / pg.traverse / pg.query on the same inputs on every run '
                 '(12 case kinds, exact outcome incl. error kind and set iteration order), the Unicode digit table of the model is compared with the interpreter, and the property text is evaluated on the real objects on every case.'),
-    level_note=('Partial: == of path sets, include_intermediate, has_prefix/subtree, enter_selected=False and early-stop traversal are modelled and checked by correspondence and oracle only (no theorem yet). '
+    level_note=('Partial: include_intermediate, enter_selected=False and early-stop traversal are modelled and checked by correspondence and oracle only (no theorem yet). '
                 'Not modelled: custom key objects, bool keys, tuples, MISSING_VALUE leaves, pg.Object nodes, regex/where of pg.query, user merge functions, subtree aliasing. '
                 'Trusted: Coq kernel, stdlib DecimalZ, extraction cross-checked by vm_compute, the Python harness (generators, driver, exception canonicalisation), CPython str.isdigit/int/str comparison. '
                 'Open finding: the path key "$" collides with the trie end marker (quirk flag q_dollar).'),
@@ -789,6 +789,26 @@ def run(ctx):
     out = impl_parse(s)
     ctx.hist('parse_outcomes', ['keys', 'error:close', 'error:open', 'error:int'][0 if out[0] == 0 else 1 + out[1]] if out[0] == 0 or out[1] < 3 else 'other')
     add([1, estr(s)], out, 'parse', out[0] == 1 or any(c in s for c in '[]'), dict(op='parse', string=s))
+  # (B') exhaustive small scope: every string over the state-machine alphabet up to a length, every key list of length <= 2 over a key set
+  import itertools
+  SM = ['.', '[', ']', '-', '0', 'a', '²']
+  maxlen = ctx.scale(4, 6)
+  n_ex = 0
+  for n in range(maxlen + 1):
+    for tup in itertools.product(SM, repeat=n):
+      s = ''.join(tup)
+      add([1, estr(s)], impl_parse(s), 'parse(exhaustive)', n >= 2, dict(op='parse', string=s))
+      n_ex += 1
+  KS = ['a', '0', '-', '-1', '.', 'a.b', '[0]', '[a]', '[]', '[[]]', 'a[0]', '²', '$', ' ', 'é', 0, 1, -1, 10, -12]
+  n_kl = 0
+  for n in range(3):
+    for tup in itertools.product(KS, repeat=n):
+      p = list(tup)
+      add([2, epath(p)], impl_parse(K(p).path), 'roundtrip(exhaustive)', n >= 1, dict(op='parse(str(p))', keys=p))
+      oracle_jobs.append((oracle_roundtrip, (p,)))
+      n_kl += 1
+  ctx.extra['exhaustive_small_scope'] = dict(exhaustive=True, parse_strings=n_ex, alphabet=''.join(SM), max_length=maxlen,
+                                             key_lists=n_kl, key_set=[repr(k) for k in KS], max_keys=2)
   # (C) arithmetic / comparison on pairs, ordering laws on triples
   triples = [tuple(list(x) for x in t) for t in CORPUS_ORDER]
   for _ in range(ctx.scale(500, 8000)):
